@@ -11,4 +11,5 @@ func genMore() {
 	genMapRanges()
 	genShipped()
 	genGuards()
+	genTypeSwitches()
 }
